@@ -217,7 +217,7 @@ let read_op_named0 t name =
       ignore (next_str t);
       let l = List.rev (next_zlist t) in
       (name, [ (OAssignViewSub (l, Z0, npos_z), SAssignViewSub (l, Z0, npos_z)) ])
-  | "krf" | "zrf" ->
+  | "krf" | "zrf" | "zri" ->
       (* ... with a forward-only iterator: no up-front check, one push_back per character onto the empty string *)
       ignore (next_str t);
       let l = next_zlist t in
